@@ -131,6 +131,7 @@ pub fn blocks(thorough: bool) -> Vec<Block> {
         b.push(Block::new(crate::props::c05::u_rep_single(&["1", "\u{20ac}", " ", "\u{1f4a9}"], 6), esc(&[R | D, R | S, R | NW, R | D | I]), "{e, e+u} x {r+d, r+s, r+W, r+d+i} (class tokens and non-ASCII characters in one repeated unit)"));
         b.push(Block::new(u_kind_pairs(2, 2, false), esc(&[0]), "{e, e+u}"));
         b.push(Block::new(u_runs(), esc(&[0, X, I]), "{e, e+u} x {{}, x, i}"));
+        b.push(Block::new(u_kind_triples(), esc(&[0, X]), "{e, e+u} x {{}, x}"));
     } else {
         b.push(Block::new(crate::props::c05::u_rep_single(&["1", "\u{20ac}", " ", "\u{1f4a9}"], 7), esc(&[R | D, R | S, R | NW, R | D | I, R | W | X]), "{e, e+u} x 5 bases"));
         b.push(Block::new(crate::props::c05::u_rep_single(&["\u{e9}", "\u{1f4a9}", "a"], 8), esc(&[R, R | X, R | I, R | G]), "{e, e+u} x {r, r+x, r+i, r+g}"));
@@ -146,6 +147,7 @@ pub fn blocks(thorough: bool) -> Vec<Block> {
         b.push(Block::new(u_kind_pairs(2, 3, false), esc(&[0, X]), "{e, e+u} x {{}, x}"));
         b.push(Block::new(u_kind_pairs(3, 1, false), esc(&bases8), "{e, e+u} x 8 bases"));
         b.push(Block::new(u_runs(), esc(&bases8), "{e, e+u} x 8 bases"));
+        b.push(Block::new(u_kind_triples(), esc(&bases8), "{e, e+u} x 8 bases"));
     }
     b
 }
